@@ -4,8 +4,10 @@ The session model records a transport write as `Effect.write f`, `f` an abstract
 function `render f` is "every field `tag=value` followed by SOH, tags in decimal, values as their code
 points".  Props/C02Hist proves that `render f` is a well-formed frame of single bytes for every write of
 every history.  This script checks that `render f` is what the REAL connection hands to its
-transport: for ~300 random session-level steps (mostly `send_msg` of generated messages, plus
-TestRequest / Heartbeat / Logout / resend replays and gap fills) it runs
+transport: for ~300 random session-level steps (mostly `send_msg` of generated messages - values from the
+Unicode value classes of codec_common, frames up to > 64 KiB -, plus TestRequest / Heartbeat / Logout / resend
+replays and gap fills, also from journals that already hold replayed (PossDupFlag=Y / OrigSendingTime) copies)
+and for multi-step CHAINS (sends, ResendRequest, the same / an overlapping ResendRequest again, …) it runs
 
   * the compiled Lean session model (`sess.step`), takes the `W=` effect frames of the reply and
     renders them here exactly as `render` is defined, and
@@ -20,10 +22,12 @@ and compares the two byte-string lists.  One summary line; exit status 1 on any 
 """
 from __future__ import annotations
 
+import dataclasses
 import os
 import random
 import sys
 
+from . import codec_common as K
 from . import common as C
 from . import sess_common as S
 
@@ -41,10 +45,16 @@ def render(fields) -> list:
 
 VALUES = ["A", "c1", "hello world", "1.25", "a=b", "8=FIX.4.4", "10=000", "h\xe9llo", "\xff\x80", "Y", "N", "0",
           "20240102-00:00:00.000", "x" * 40]
-NONLATIN = ["€", "Ā", "h\xe9llo€", "\U0001f600"]
+NONLATIN = ["\u20ac", "\u0100", "h\xe9llo\u20ac", "\U0001f600"]
+# Unicode value classes (Lean `String` has no lone surrogates: those go through the codec model only)
+for _cls, _texts in K.UNICODE_CLASSES.items():
+    if _cls == "surrogate":
+        continue
+    for _t in _texts:
+        (VALUES if K.fits_latin1(_t) else NONLATIN).append(_t) if "\x01" not in _t else None
 BODY_TAGS = [1, 11, 38, 44, 54, 55, 58, 60, 112, 9001, 100000, 7, 16, 36, 123]
 HDR_TAGS = [34, 52, 49, 56]          # skipped by the encoder
-ODD_TAGS = [8, 9, 35, 10, 43, 122]   # kept by the encoder like any other tag
+ODD_TAGS = [43, 97, 122, 115, 128]   # optional header fields an application may set: kept like any other tag
 SENDERS = ["S", "SND", "S\xe9", "A=B", "INIT"]
 SEQS = [1, 2, 9, 10, 99, 100, 12345, 2 ** 31, 2 ** 62 + 5]   # journal numbers fit SQLite INTEGER
 
@@ -66,17 +76,21 @@ def gen_tags(rng, k):
     return tags
 
 
-def gen_case(rng, i):
-    """(kind, abstract connection, should_replay spec, event)"""
+def gen_case(rng, i, tier="quick"):
+    """(kind, abstract connection, should_replay spec, [event])"""
     a = S.AbsConn(state=ACTIVE, role=rng.choice([1, 2]), was_active=True, sock=True,
                   sender=rng.choice(SENDERS), target=rng.choice(["T", "TGT", "ACPT", "T\xfc"]),
                   next_in=rng.choice([1, 5, 77]), next_out=rng.choice(SEQS), hb=30)
     a.stored_out, a.stored_in = a.next_out - 1, a.next_in - 1
     now = 125 * rng.randrange(1, 600000)
     r = rng.random()
-    if r < 0.50:
+    if r < 0.46:
         mtype = rng.choice(["D", "8", "0", "5", "AE", "j", "3", "A"])
-        return "send", a, "all", ("send", now, (mtype, gen_tags(rng, rng.randrange(0, 7))))
+        return "send", a, "all", [("send", now, (mtype, gen_tags(rng, rng.randrange(0, 7))))]
+    if r < 0.48:
+        size = rng.choice([4096, 65400, 65536, 65600, 70000] + ([131072, 300000] if tier == "thorough" else []))
+        tags = gen_tags(rng, 2) + [(58, rng.choice(["x", "\xe9", "="]) * size)]
+        return "send-big", a, "all", [("send", now, ("B", [(t, v) for t, v in tags if t != 58 or len(v) >= size]))]
     if r < 0.58:
         tags = gen_tags(rng, rng.randrange(1, 5))
         j = rng.randrange(len(tags))
@@ -84,42 +98,51 @@ def gen_case(rng, i):
             j = None
         if j is not None:
             tags[j] = (tags[j][0], tags[j][1] + rng.choice(NONLATIN))
-        return "send-nonlatin", a, "all", ("send", now, ("D", tags))
+        elif rng.random() < 0.5:
+            a.sender = a.sender + rng.choice(NONLATIN)           # … or in a comp id
+        return "send-nonlatin", a, "all", [("send", now, ("D", tags))]
     if r < 0.66:
         tags = [(t, v) for t, v in gen_tags(rng, rng.randrange(0, 4)) if t not in (34, 43)]
         tags.insert(rng.randrange(len(tags) + 1), (43, "Y"))
         tags.insert(rng.randrange(len(tags) + 1), (34, str(rng.choice(SEQS))))
-        return "send-possdup", a, "all", ("send", now, ("D", tags))
+        return "send-possdup", a, "all", [("send", now, ("D", tags))]
     if r < 0.72:
         n = rng.choice(SEQS)
         tags = [(123, rng.choice(["Y", "N"])), (34, str(n)), (36, str(n + rng.randrange(1, 9)))]
         rng.shuffle(tags)
-        return "send-seqreset", a, "all", ("send", now, ("4", tags))
-    if r < 0.77:
+        return "send-seqreset", a, "all", [("send", now, ("4", tags))]
+    if r < 0.76:
         a.test_req_id = rng.choice([None, 5])
-        return "send-testrequest", a, "all", ("send", now, ("1", [(112, "abc")]))
-    if r < 0.81:
-        return "testreq", a, "all", ("testreq", now)
-    if r < 0.86:
-        return "logout", a, "all", ("disc", now, rng.choice([1, 2, 3]), rng.choice(["", "bye", "r\xe9son", "a=b"]))
-    if r < 0.91:
+        return "send-testrequest", a, "all", [("send", now, ("1", [(112, "abc")]))]
+    if r < 0.79:
+        return "testreq", a, "all", [("testreq", now)]
+    if r < 0.84:
+        return "logout", a, "all", [("disc", now, rng.choice([1, 2, 3]), rng.choice(["", "bye", "r\xe9son", "a=b"]))]
+    if r < 0.88:
         m = S.inbound(a, "1", [(112, rng.choice(["T1", "4711", "t\xe9st"]))], now_ms=now)
-        return "recv-testrequest", a, "all", ("recv", now, m)
-    # ResendRequest served from a journal written by the real encoder: replays + gap fills
+        return "recv-testrequest", a, "all", [("recv", now, m)]
+    # ResendRequest served from a journal written by the real encoder: replays + gap fills.  Some rows are what a
+    # PREVIOUS replay left behind (PossDupFlag=Y, OrigSendingTime): the state after "resend, then resend again".
     a.next_out = rng.choice([6, 12])
     a.stored_out = a.next_out - 1
+    replayed_before = rng.random() < 0.5
     rows = []
     for seq in range(1, a.next_out):
         if rng.random() < 0.25:
             continue
         mt = rng.choice(["D", "D", "8", "0", "A", "1"])
-        rows.append(S.encode_row(a.sender, a.target, mt, [(11, f"id{seq}"), (58, rng.choice(VALUES))], seq, now_ms=now))
+        tags = [(11, f"id{seq}"), (58, rng.choice(VALUES))]
+        if replayed_before and rng.random() < 0.7:
+            tags += [(43, "Y"), (122, S.stamp(max(0, now - 60000)))]
+        elif rng.random() < 0.1:
+            tags += [(122, "20231231-23:59:59")]            # OrigSendingTime set by the application itself
+        rows.append(S.encode_row(a.sender, a.target, mt, tags, seq, now_ms=now))
     a.out_rows = rows
     b = rng.randrange(1, a.next_out)
     e = rng.choice([0, 0, b + rng.randrange(0, 4), a.next_out + 3])
     m = S.inbound(a, "2", [(7, b), (16, e)], now_ms=now)
     sr = rng.choice(["all", "all", "none", "d%d" % rng.randrange(1, a.next_out)])
-    return "recv-resend", a, sr, ("recv", now, m)
+    return ("recv-resend-again" if replayed_before else "recv-resend"), a, sr, [("recv", now, m)]
 
 
 def model_frames(reply: str):
@@ -129,48 +152,164 @@ def model_frames(reply: str):
     return [S.parse_msg_tok(x[2:])[1] for x in eff.split(";") if x.startswith("W=")]
 
 
-def run(n=300, seed=1, rng=None):
+def gen_chain(rng, live):
+    """a multi-step history: the next event is chosen from the MODEL's current state (so that inbound frames carry
+    the expected numbers); returns (kind, a0, sr, events, model frames per step)"""
+    a0 = S.AbsConn(state=ACTIVE, role=rng.choice([1, 2]), was_active=True, sock=True, sender=rng.choice(SENDERS),
+                   target=rng.choice(["T", "TGT"]), next_in=rng.choice([1, 9]), next_out=rng.choice([1, 3, 40]), hb=30)
+    a0.stored_out, a0.stored_in = a0.next_out - 1, a0.next_in - 1
+    first_out = a0.next_out
+    sr = rng.choice(["all", "all", "all", "none", "d%d" % (first_out + 1)])
+    a, evs, frames = a0, [], []
+    now = 125 * rng.randrange(1, 1000)
+    plan = ["send"] * rng.randrange(2, 5) + ["resend"] + rng.choice([[], ["send"], ["testreq"]]) + ["resend-again"]
+    plan += rng.choice([[], ["resend-again"], ["send", "resend"]])
+    last = None
+    for what in plan:
+        now += 125 * rng.randrange(1, 80)
+        if what == "send":
+            tags = [(t, v) for t, v in gen_tags(rng, rng.randrange(1, 4)) if t not in (34, 43)]
+            ev = ("send", now, (rng.choice(["D", "8", "0", "B"]), tags))
+        elif what == "testreq":
+            ev = ("recv", now, S.inbound(a, "1", [(112, "T")], now_ms=now))
+        else:
+            hi = max(first_out, a.next_out - 1)
+            if what == "resend-again" and last is not None:
+                b, e = last
+                if rng.random() < 0.4:
+                    b, e = max(1, b + rng.choice([-1, 0, 1])), (0 if e == 0 else e + rng.choice([0, 1]))
+            else:
+                b = rng.randrange(first_out, hi + 1)
+                e = rng.choice([0, 0, b, hi])
+            last = (b, e)
+            ev = ("recv", now, S.inbound(a, "2", [(7, b), (16, e)], now_ms=now))
+        rep = live.ask([S.step_line(a, sr, ev)])[0]
+        if rep.startswith("bad-op") or " # " not in rep:
+            frames.append(None)
+            evs.append(ev)
+            break
+        frames.append(model_frames(rep))
+        evs.append(ev)
+        a = S.parse_conn_tokens(rep.split(" # ", 1)[1])
+    return "chain", a0, sr, evs, frames
+
+
+def unrepresentable(a, ev):
+    """does this application send carry text outside latin-1 (then nothing may reach the transport)"""
+    if ev[0] != "send":
+        return False
+    mtype, tags = ev[2]
+    texts = [mtype, a.sender, a.target] + [v for t, v in tags if t not in HDR_TAGS]
+    return any(not K.fits_latin1(x) for x in texts)
+
+
+def impl_steps(impl, bcase):
+    """apply the events of a case to the real connection; per event the list of raw transport writes"""
+    kind, a, sr, evs = bcase[:4]
+    impl.load(a)
+    out = []
+    for ev in evs:
+        k = len(impl.eff)
+        impl.apply(sr, ev)
+        out.append([bytes(e[1]) for e in impl.eff[k:] if e[0] == "W"])
+    return out
+
+
+def impl_writes(impl, bcase):
+    """(raw write, came from an unrepresentable application send) for the oracle of harness/c02.py"""
+    kind, a, sr, evs = bcase[:4]
+    for ev, ws in zip(evs, impl_steps(impl, bcase)):
+        for w in ws:
+            yield w, unrepresentable(a, ev)
+
+
+def case_to_json(bcase):
+    kind, a, sr, evs = bcase[:4]
+    return {"kind": kind, "conn": dataclasses.asdict(a), "sr": sr, "events": evs}
+
+
+def _tup(x):
+    return tuple(_tup(y) for y in x) if isinstance(x, (list, tuple)) else x
+
+
+def case_from_json(j):
+    d = dict(j["conn"])
+    for k in ("out_rows", "in_rows"):
+        d[k] = [(seq, (m[0], [tuple(f) for f in m[1]])) for seq, m in d[k]]
+    evs = []
+    for ev in j["events"]:
+        ev = list(ev)
+        if ev[0] in ("recv", "send"):
+            ev[2] = (ev[2][0], [tuple(f) for f in ev[2][1]])
+        evs.append(tuple(ev))
+    return (j["kind"], S.AbsConn(**d), j["sr"], evs)
+
+
+def run(n=300, seed=1, rng=None, tier="quick"):
     rng = rng or random.Random("bridge:%s" % seed)
     cases, diffs = [], []
     for i in range(n):
         try:
-            cases.append(gen_case(rng, i))
+            cases.append(gen_case(rng, i, tier))
         except Exception as e:  # the journal rows are made with the REAL encoder + decoder (S.encode_row)
             diffs.append({"input": "case %d" % i, "model": "-", "impl": "real encoder/decoder failed while "
                           "preparing journal rows: %s" % type(e).__name__})
-    replies = C.Driver().batch([S.step_line(a, sr, ev) for _, a, sr, ev in cases])
-    impl = S.Impl()
-    kinds, frames, refused = {}, 0, 0
+    replies = C.Driver().batch([S.step_line(a, sr, evs[0]) for _, a, sr, evs in cases])
+    model = [[None if rep.startswith("bad-op") else model_frames(rep)] for rep in replies]
+    # chains: the model runs first (stateful driver conversation), then the implementation replays the same events
+    nchains = max(10, n // 6)
+    live = C.LiveDriver()
     try:
-        for (kind, a, sr, ev), rep in zip(cases, replies):
+        for _ in range(nchains):
+            kind, a0, sr, evs, frames = gen_chain(rng, live)
+            cases.append((kind, a0, sr, evs))
+            model.append(frames)
+    finally:
+        try:
+            live.close()
+        except Exception:  # noqa
+            pass
+    impl = S.Impl()
+    kinds, frames, refused, steps = {}, 0, 0, 0
+    try:
+        for bcase, mframes in zip(cases, model):
+            kind, a, sr, evs = bcase
             kinds[kind] = kinds.get(kind, 0) + 1
-            if rep.startswith("bad-op"):
-                diffs.append({"input": S.step_line(a, sr, ev), "model": rep, "impl": "driver refused the line"})
-                continue
-            impl.load(a)
-            impl.apply(sr, ev)
-            wire = [list(e[1]) for e in impl.eff if e[0] == "W"]
-            rendered = [render(fs) for fs in model_frames(rep)]
-            frames += len(wire)
-            refused += 1 if not wire else 0
-            if rendered != wire:
-                diffs.append({"input": S.step_line(a, sr, ev), "kind": kind,
-                              "model": [bytes(b if b < 256 else 63 for b in fr).hex() for fr in rendered],
-                              "impl": [bytes(fr).hex() for fr in wire]})
+            per_step = impl_steps(impl, bcase)
+            for i, (ev, wire) in enumerate(zip(evs, per_step)):
+                steps += 1
+                mf = mframes[i] if i < len(mframes) else None
+                if mf is None:
+                    diffs.append({"input": S.step_line(a, sr, ev)[:2000], "model": "driver refused the line",
+                                  "impl": "-", "case": bcase})
+                    break
+                rendered = [bytes_or_none(render(fs)) for fs in mf]
+                frames += len(wire)
+                refused += 1 if not wire else 0
+                if rendered != wire:
+                    diffs.append({"input": "step %d of %s: %s" % (i, kind, S.step_line(a, sr, ev)[:1500]), "kind": kind,
+                                  "model": [fr.hex()[:300] if fr is not None else "not single bytes" for fr in rendered],
+                                  "impl": [fr.hex()[:300] for fr in wire], "case": bcase})
+                    break
     finally:
         impl.close()
-    return {"cases": n, "frames": frames, "steps_without_write": refused, "kinds": kinds, "differences": diffs}
+    return {"cases": len(cases), "frames": frames, "steps": steps, "steps_without_write": refused, "kinds": kinds,
+            "differences": diffs}
+
+
+def bytes_or_none(codes):
+    return bytes(codes) if all(c < 256 for c in codes) else None
 
 
 def main(argv):
     n = int(argv[1]) if len(argv) > 1 else 300
     seed = argv[2] if len(argv) > 2 else os.environ.get("VERIF_SEED", "1")
     res = run(n, seed)
-    print("bridge_check: cases=%d transport_writes=%d steps_without_write=%d kinds=%s differences=%d" % (
-        res["cases"], res["frames"], res["steps_without_write"],
+    print("bridge_check: cases=%d steps=%d transport_writes=%d steps_without_write=%d kinds=%s differences=%d" % (
+        res["cases"], res["steps"], res["frames"], res["steps_without_write"],
         ",".join("%s:%d" % kv for kv in sorted(res["kinds"].items())), len(res["differences"])))
     for d in res["differences"][:5]:
-        print("  DIFFERENCE", d)
+        print("  DIFFERENCE", {k: v for k, v in d.items() if k != "case"})
     return 1 if res["differences"] else 0
 
 
